@@ -36,6 +36,9 @@ CHECKS["C06"] = dict(text="assembleLine (real) on a source line whose op field r
 CHECKS["C07"] = dict(text="The sign-rewriting stage of expression evaluation (combineSigns then flipDoubleNegatives, real code) preserves the denoted expression on every token sequence over {+, -, other operator, (, ), literal} up to length 5 (thorough 6) that does not end in an operator, compared through an independently written normal form of sign runs (unary run = parity of minus signs, binary run = first sign is the operator); the output never contains two adjacent equal signs (which Go would lex as ++ / --) and keeps all non-sign tokens in order.",
              note="Trusted: translator (witness replay), z3, the normal form of DESIGN.md appendix D. This is kernel E1 of the design; E2..E4 (glue with EQU substitution, reduction, literals) are covered at chosen values by C06_line and are otherwise outside this check. Exactness of Go's constant arithmetic (go/types) is trusted.",
              ref="5/C07")
+CHECKS["C05"] = dict(text="The real lexer on every rune sequence up to length 2 (thorough 3) over ASCII and U+FFFD (symbolic tape): returns, delivers exactly one terminal token and delivers it last, token count linear, its producer goroutine finishes, no panic; the real CompileWarrior on every sequence of up to 2 (thorough 3) words of an 18-word token-soup vocabulary (for rof equ dat end labels numbers operators comma newline comment colon '=' '!' paren) with and without a final newline: returns within the derived loop bounds, error xor warrior, entry point inside the code, no goroutine parked (coroutine model of the unbuffered-channel producer/consumer pairs), no consumer blocked forever; FOR with a symbolic count 0..4 (and negated) emits the body exactly count times within count+c iterations; compile on every pair of EQU definitions of length <= 2 (thorough 3) over {x, y, +, 1} with and without an ;assert line: terminates (unwinding assertion on the substitution fix-point), cyclic definitions rejected.",
+             note="Trusted: translator (witness replay incl. goroutine counts and time budgets), z3, the coroutine scheduling (one representative interleaving of producer and consumer; they share no memory on the Tokens() path). Wall-clock time and RSS are outside the technique; termination is decided as loop-bound (unwinding) assertions. Multi-byte UTF-8 letters and longer inputs are outside the bound.",
+             ref="5/C05")
 CHECKS = dict(sorted(CHECKS.items()))
 
 NOT_YET = {
